@@ -6,7 +6,7 @@
 From Coq Require Import List ZArith Bool Arith Permutation Sorted.
 From YV Require Import Common.Corr Model.Queries Model.Streams
   Lemmas.QueriesLaws Lemmas.QueriesOrder Lemmas.QueriesGroup Lemmas.QueriesInsert
-  Lemmas.QueriesDictSet Lemmas.StreamsSteps Lemmas.StreamsPipeline Lemmas.StreamsMore Lemmas.StreamsGeneric Lemmas.StreamsAll Lemmas.StreamsMore2 Lemmas.QueriesStrings.
+  Lemmas.QueriesDictSet Lemmas.StreamsSteps Lemmas.StreamsPipeline Lemmas.StreamsMore Lemmas.StreamsGeneric Lemmas.StreamsAll Lemmas.StreamsMore2 Lemmas.QueriesStrings Lemmas.QueriesDictEq.
 Import ListNotations.
 
 (* orderBy / thenBy with any ascending/descending flags: the output is a
@@ -48,12 +48,28 @@ Proof.
            (fun a b => val_eqb_sym a b) (fun a b c => val_eqb_trans a b c) l).
 Qed.
 
-(* Python equality on the modelled values (True == 1, tuples never equal lists) is
-   an equivalence: what distinct / groupBy / indexOf / sets rely on *)
+(* Python equality on the modelled values (True == 1, tuples never equal lists, dicts - frozen or not - equal as
+   finite maps whatever their insertion order) is an equivalence on ALL values: what distinct / groupBy / indexOf /
+   sets / dict keys rely on, and what every hash must be compatible with *)
 Theorem C13_equality_is_equivalence :
   (forall a, val_eqb a a = true) /\ (forall a b, val_eqb a b = val_eqb b a) /\
   (forall a b c, val_eqb a b = true -> val_eqb b c = true -> val_eqb a c = true).
 Proof. exact (conj val_eqb_refl (conj (fun a b => val_eqb_sym a b) (fun a b c => val_eqb_trans a b c))). Qed.
+
+(* dict equality does not see insertion order: any rearrangement of the items of a dict with (distinct) scalar keys is
+   an equal value - so two such dicts are ONE element for distinct, ONE key for groupBy / toDict, ONE member of a set *)
+Theorem C13_dict_equality_order_free : forall m m' d d', Permutation d d' ->
+  Forall (fun kv => is_scalar (fst kv) = true) d ->
+  ForallOrdPairs (fun p q => val_seqb (fst p) (fst q) = false) d ->
+  val_eqb (VDict m d) (VDict m' d') = true.
+Proof. exact dict_eqb_perm. Qed.
+
+Example C13_example_dict_order :
+  let d1 := VDict false [(VStr [97%Z], VInt 1); (VStr [98%Z], VInt 2)] in
+  let d2 := VDict true [(VStr [98%Z], VInt 2); (VStr [97%Z], VInt 1)] in
+  val_eqb d1 d2 = true /\ distinct_l val_eqb (fun x => x) [d1; d2] = [d1] /\ length (set_of_list [d1; d2]) = 1%nat /\
+  length (group_by_l val_eqb (fun x => x) (fun x => x) [d1; d2; d1]) = 1%nat.
+Proof. vm_compute. repeat split. Qed.
 
 (* ---- the algebraic laws ------------------------------------------------------ *)
 Theorem C13_where_where : forall (p q : val -> bool) l,
